@@ -186,12 +186,17 @@ class Tensor:
 
     def __vf_isinstance__(self, I, t):
         name = getattr(t, "dotted", getattr(t, "name", ""))
+        if getattr(self, "np_like", False):           # a numpy array modelled by the same (shape, element function) representation
+            return name.split(".")[-1] == "ndarray"
         return name.split(".")[-1] == "Tensor"
 
     def __vf_getattr__(self, I, name):
         if name == "shape":
             return tuple(self.shape)
         if name == "dtype":
+            if getattr(self, "np_like", False):
+                from .values import Opaque, ExternalVal
+                return Opaque("np_dtype", {"type": ExternalVal("numpy.float32" if self.dtype == "float" else "numpy.int64")})
             from .stubs import Token
             return Token("dtype." + self.dtype)
         if name in ("device", "data"):
@@ -203,7 +208,12 @@ class Tensor:
         m = METHODS.get(name)
         if m is None:
             raise Unsupported(f"tensor method {name}")
-        return BoundBuiltin(lambda *a, **k: m(I, self, *a, **k))
+        def bound(*a, **k):
+            r = m(I, self, *a, **k)
+            if getattr(self, "np_like", False) and isinstance(r, Tensor):
+                r.np_like = True
+            return r
+        return BoundBuiltin(bound)
 
     def __vf_getitem__(self, I, k):
         return index(I, self, k if isinstance(k, tuple) else (k,))
@@ -1132,6 +1142,21 @@ def install(I):
             return out
         return Tensor([total] + list(ts[0].shape[1:]), elem, ts[0].dtype)
     ext["torch.cat"] = cat
+
+    def np_eye(I, a, k):
+        n = a[0]
+        t = Tensor([n, n], lambda idx: z3.If(to_z3(lin(idx[0])) == to_z3(lin(idx[1])), z3.RealVal(1), z3.RealVal(0)), "float")
+        t.np_like = True
+        return t
+    ext["numpy.eye"] = np_eye
+
+    def np_transpose(I, a, k):
+        axes = k.get("axes", a[1] if len(a) > 1 else None)
+        x = as_tensor(a[0])
+        r = permute(I, x, list(B.iterate(I, axes)) if axes is not None else list(reversed(range(x.rank))))
+        r.np_like = True
+        return r
+    ext["numpy.transpose"] = np_transpose
 
     def arange(I, a, k):
         if len(a) == 1:
